@@ -148,6 +148,23 @@ def method_case(rng, name, tier_big=False):
         m["rank_by"] = rng.choice([1, 2])
     else:
         c = gen.dm_case(rng, **kw)
+    if name in ("wsm", "ratio", "wpm", "fmf") and len(c["matrix"]) >= 3 and len(c["weights"]) >= 3 \
+            and len(c["matrix"]) < 60 and rng.random() < 0.07:
+        # two alternatives whose scores are equal on paper but are added up in another order (equal weights, one row a
+        # permutation of the other, all criteria of one sense): the reported scores may differ in the last bit, and
+        # the ranking must follow the scores as reported; a third alternative is far ahead
+        m_ = len(c["weights"])
+        c["weights"] = [1.0] * m_
+        c["objectives"] = [1] * m_
+        i, j, k = rng.sample(range(len(c["matrix"])), 3)
+        row = [rng.uniform(0.05, 1.0) for _ in range(m_)]
+        perm = row[:]
+        rng.shuffle(perm)
+        c["matrix"][i], c["matrix"][j] = row, perm
+        c["matrix"][k] = [3.0 * x + 1.0 for x in row]
+        c["tags"] = list(c["tags"]) + ["permuted_row"]
+        c["mode"] = "float"          # (not an exactly representable problem any more)
+        c.pop("dtypes", None)
     if name in ("wpm", "fmf", "wsm", "ratio") and rng.random() < 0.08:
         # weights need not be small: hundreds, as when points out of 1000 are distributed
         k = rng.choice([64.0, 128.0])
